@@ -257,9 +257,8 @@ func runC19(r *Report) {
 	// ---- R-C19-3 owner check, order and guard in DeleteMapping ------------------------------
 	if dm := r.need("R-C19-3", reposPkg, "HTTPDomainMappingRepository.DeleteMapping"); dm != nil {
 		var idxDel, dataDel ssa.CallInstruction
-		for _, d := range Calls(dm, false, "Delete", "HTTPDomainMappingRepository.removeFromClientMappingList", "HTTPDomainMappingRepository.removeFromGlobalMappingList", "RemoveFromList") {
-			owner := false
-			for _, ft := range Facts(d.Block()) {
+		ownerAt := func(b *ssa.BasicBlock) bool {
+			for _, ft := range Facts(b) {
 				bo, ok := ft.Cond.(*ssa.BinOp)
 				if !ok {
 					continue
@@ -267,8 +266,42 @@ func runC19(r *Report) {
 				l, rr := originSummary(bo.X), originSummary(bo.Y)
 				if ((bo.Op == token.NEQ && !ft.Pol) || (bo.Op == token.EQL && ft.Pol)) && strings.Contains(l+rr, "HTTPDomainMapping.ClientID") && strings.Contains(l+rr, "param:clientID") {
 					// the comparison must be the only condition of the refusal (no extra escape hatch)
-					owner = true
+					return true
 				}
+			}
+			return false
+		}
+		delNames := []string{"Delete", "HTTPDomainMappingRepository.removeFromClientMappingList", "HTTPDomainMappingRepository.removeFromGlobalMappingList", "RemoveFromList"}
+		dels := Calls(dm, false, delNames...)
+		via := map[ssa.CallInstruction]*ssa.Call{}
+		// the removal itself may be a helper of the repository (`r.purgeMapping(mapping)`)
+		Instrs(dm, func(in ssa.Instruction) {
+			hc, ok := in.(*ssa.Call)
+			if !ok {
+				return
+			}
+			h := hc.Common().StaticCallee()
+			if h == nil || h.Pkg != dm.Pkg || len(h.Blocks) == 0 || CalleeOf(hc).Is(delNames...) {
+				return
+			}
+			hasKeyDelete := false
+			for _, d := range Calls(h, false, "Delete") {
+				if kc, _ := CallOfValue(d.Common().Args[0]); kc != nil && (CalleeOf(kc).Name == "HTTPDomainIndexKey" || CalleeOf(kc).Name == "HTTPDomainMappingKey") {
+					hasKeyDelete = true
+				}
+			}
+			if !hasKeyDelete {
+				return
+			}
+			for _, d := range Calls(h, false, delNames...) {
+				dels = append(dels, d)
+				via[d] = hc
+			}
+		})
+		for _, d := range dels {
+			owner := ownerAt(d.Block())
+			if hc := via[d]; hc != nil && ownerAt(hc.Block()) {
+				owner = true
 			}
 			r.Ob("R-C19-3", CallPos(d), owner, CalleeOf(d).Name+" in DeleteMapping is dominated by mapping.ClientID == clientID (only the owner can delete)", "DeleteMapping", "owner-check:"+CalleeOf(d).Name)
 			if CalleeOf(d).Name == "Delete" {
@@ -326,7 +359,7 @@ func runC19(r *Report) {
 					continue
 				}
 				l, rr := originSummary(bo.X), originSummary(bo.Y)
-				if strings.Contains(l+rr, "Get") && strings.Contains(l+rr, "param:mappingID") {
+				if strings.Contains(l+rr, "Get") && (strings.Contains(l+rr, "param:mappingID") || (via[idxDel] != nil && strings.Contains(l+rr, "HTTPDomainMapping.ID"))) {
 					guarded = true
 				}
 			}
@@ -377,10 +410,27 @@ func runC19(r *Report) {
 			r.Ob("R-C19-4", CallPos(repoCalls[0]), len(next) > 0, "lookupMapping falls through to the legacy sources only on a named error code of the repository lookup", "lookupMapping", "fallthrough-code")
 			lk := Calls(lr, false, "LookupByDomain")
 			nTerm := 0
+			mks := []ssa.CallInstruction{}
 			for _, mk := range Calls(lr, false, "errors:New", "errors:Newf", "errors:Wrap", "errors:Wrapf") {
-				if len(lk) != 1 || !ErrOK(mk.Block(), lk[0]) {
-					continue
+				if len(lk) == 1 && ErrOK(mk.Block(), lk[0]) {
+					mks = append(mks, mk)
 				}
+			}
+			// the refusals may be produced by a routability helper called once the name was found
+			Instrs(lr, func(in ssa.Instruction) {
+				hc, ok := in.(*ssa.Call)
+				if !ok || len(lk) != 1 || !ErrOK(hc.Block(), lk[0]) {
+					return
+				}
+				if h := hc.Common().StaticCallee(); h != nil && h.Pkg == lr.Pkg && len(h.Blocks) > 0 {
+					for _, u := range samePkgReach(h, 2) {
+						if u != lr {
+							mks = append(mks, Calls(u, false, "errors:New", "errors:Newf", "errors:Wrap", "errors:Wrapf")...)
+						}
+					}
+				}
+			})
+			for _, mk := range mks {
 				code := ""
 				for i := 0; i < 2; i++ {
 					if k, ok := stripValue(Arg(mk, i)).(*ssa.Const); ok && k.Value != nil && strings.Contains(k.Type().String(), "ErrorCode") {
@@ -420,6 +470,87 @@ func runC19(r *Report) {
 			}
 		}
 		r.Floor("R-C19-4", 6, "lookup filter obligations")
+	}
+
+	// ---- R-C19-4 the legacy registry is never filled from the repository ----------------------------
+	// Nothing unregisters a name from the in-memory registry when its repository mapping is deleted,
+	// and the registry is a fallback source of lookupMapping: a repository hit cached there keeps
+	// routing after the owner deleted it. Register may be reached only with mappings that did not
+	// come from the repository (the CloudControl path), also through helpers that receive the mapping
+	// and a constant source tag.
+	{
+		fromRepo := func(v ssa.Value) bool {
+			o := originDeep(v, 2)
+			return strings.Contains(o, "convertHTTPDomainMappingToPortMapping") || strings.Contains(o, "LookupByDomain") || strings.Contains(o, "lookupFromRepositoryWithRepo")
+		}
+		nReg := 0
+		for _, f := range r.P.FuncsIn(dpPkg) {
+			for _, rc := range Calls(f, false, "DomainRegistry.Register") {
+				nReg++
+				arg := Arg(rc, 0)
+				bad := ""
+				if fromRepo(arg) {
+					bad = "a repository hit is registered directly"
+				}
+				// the mapping is a parameter of this helper: look at every call site
+				if p, isP := stripValue(arg).(*ssa.Parameter); isP && bad == "" {
+					pi := -1
+					for i, q := range f.Params {
+						if q == p {
+							pi = i
+						}
+					}
+					for _, site := range staticCallSites(r.P, f) {
+						if pi < 0 || pi >= len(site.Call.Args) || !fromRepo(site.Call.Args[pi]) {
+							continue
+						}
+						// constant arguments of this call decide comparisons on the helper's parameters
+						known := map[*ssa.Parameter]*ssa.Const{}
+						for i, a := range site.Call.Args {
+							if k, ok := stripValue(a).(*ssa.Const); ok && i < len(f.Params) {
+								known[f.Params[i]] = k
+							}
+						}
+						hits := WalkFrom(f.Blocks[0], nil, func(in ssa.Instruction) int {
+							if in == rc.(ssa.Instruction) {
+								return Hit
+							}
+							return Cont
+						}, func(b *ssa.BasicBlock, succ int) bool {
+							iff, ok := b.Instrs[len(b.Instrs)-1].(*ssa.If)
+							if !ok {
+								return true
+							}
+							bo, ok := iff.Cond.(*ssa.BinOp)
+							if !ok || (bo.Op != token.EQL && bo.Op != token.NEQ) {
+								return true
+							}
+							var kp, kc *ssa.Const
+							if pp, ok := stripValue(bo.X).(*ssa.Parameter); ok {
+								kp = known[pp]
+								kc, _ = stripValue(bo.Y).(*ssa.Const)
+							} else if pp, ok := stripValue(bo.Y).(*ssa.Parameter); ok {
+								kp = known[pp]
+								kc, _ = stripValue(bo.X).(*ssa.Const)
+							}
+							if kp == nil || kc == nil || kp.Value == nil || kc.Value == nil {
+								return true
+							}
+							eq := kp.Value.ExactString() == kc.Value.ExactString()
+							condTrue := eq == (bo.Op == token.EQL)
+							return (succ == 0) == condTrue
+						})
+						if len(hits) > 0 {
+							bad = "a repository hit passed by " + r.P.FuncName(site.Parent()) + " reaches Register"
+						}
+					}
+				}
+				r.Ob("R-C19-4", CallPos(rc), bad == "", "the in-memory registry is filled only with mappings that did not come from the repository (nothing unregisters them when the owner deletes the mapping: "+bad+")", r.P.FuncName(f), "registry-not-filled-from-repository")
+			}
+		}
+		if nReg < 1 {
+			r.Fail("R-C19-4", 0, "no fill of the in-memory registry found in the domain proxy (1 confirmed by hand, in lookupMapping)", dpPkg, "registry-not-filled-from-repository:floor")
+		}
 	}
 
 	// ---- R-C19-5 legacy registry claim in one section ------------------------------------------
